@@ -209,6 +209,9 @@ impl Check for C11Check {
     }
 
     fn generate(&self, seed: u64, index: u64, _tier: Tier) -> Case {
+        if let Some(c) = crate::surface::case_for("C11", seed, index) {
+            return c;
+        }
         let mut st = streams(seed, "C11", index);
         let program = gen_program(&mut st.workload, &mut st.leaves);
         let cfg = gen_search::sim_cfg(&mut st.schedule, 100_000);
@@ -223,6 +226,9 @@ impl Check for C11Check {
     }
 
     fn valid(&self, case: &Case) -> bool {
+        if crate::surface::is_surface(case) {
+            return crate::surface::valid(case);
+        }
         valid::program_ok(&case.program)
             && case.program.any(|g| matches!(g, G::Project(..)))
             && !refint::is_infinite(&case.program)
@@ -244,7 +250,7 @@ impl Check for C11Check {
     }
 
     fn rule(&self) -> String {
-        "case = program in which 0..n states (via member / conde / leaves with several late answers) reach one or two \
+        "Every 64th case is one of the macro-written surface programs for this property (sim/src/surface.rs: project of two and three names, later body goals, operators and fresh blocks inside the body, variable chains, project in dfs) compared with a hand-listed expectation, under the same schedules. case = program in which 0..n states (via member / conde / leaves with several late answers) reach one or two \
          `project |x, y| { body }` goals, optionally nested or projecting the same variable again, whose bodies read the \
          projected value non-relationally (square, succ, is-number / is-var tests) and contain suspension points so that they \
          are resumed after another state has projected, x (leaf timing, yields, reorders) x consumer history over ONE \
@@ -256,6 +262,9 @@ impl Check for C11Check {
     }
 
     fn run(&self, case: &Case) -> CaseResult {
+        if crate::surface::is_surface(case) {
+            return crate::surface::run_case(case);
+        }
         let mut facts = Facts::default();
         fault_facts(&case.program, &mut facts);
         let p = &case.program;
